@@ -23,6 +23,8 @@ type outEntry struct {
 	Init    bool      `json:"init"`
 	Pos     string    `json:"pos"`
 	Acq     map[string]string `json:"acq"` // lock -> position of the Lock() call of its critical section | "entry"
+	Before  []string  `json:"before"` // signals (closes of channel fields of the object) only this goroutine gives, later
+	After   []string  `json:"after"`  // signals already observed (received from the closed channel)
 }
 
 type outCall struct {
@@ -50,6 +52,9 @@ type outTable struct {
 	EntryLocks map[string][]string `json:"entry_locks"` // function -> locks every caller holds
 	Coarse     []string            `json:"coarse_functions"`
 	SingleCall map[string]int      `json:"single_callsites"`
+	SyncUses   map[string]int      `json:"synchronised_by_construction"`
+	Signals    []string            `json:"signals"`
+	BadSignals map[string]string   `json:"signals_not_usable"`
 	Notes      []string            `json:"notes"`
 	TypeErrors []string            `json:"type_errors"`
 }
@@ -127,7 +132,8 @@ func findPkgVars(files []*ast.File) map[types.Object]bool {
 
 func analyse(files []*ast.File) *outTable {
 	an := &analysis{units: map[*types.Func]*unit{}, lits: map[*ast.FuncLit]*unit{}, fieldTgts: map[string][]*types.Func{},
-		classes: map[string]bool{}, runCalls: map[string]int{}}
+		classes: map[string]bool{}, runCalls: map[string]int{}, syncUses: map[string]int{},
+		foreignClose: map[string]string{}, closed: map[string]int{}, sentTo: map[string]bool{}}
 	an.pkgVars = findPkgVars(files)
 	var decls []*unit
 	for _, f := range files {
@@ -141,7 +147,7 @@ func analyse(files []*ast.File) *outTable {
 				continue
 			}
 			sig := fn.Type().(*types.Signature)
-			u := &unit{name: unitName(fn), body: fd.Body, fn: fn, exported: fn.Exported(), roots: map[string]bool{}, classes: map[string]bool{}, entryTop: true}
+			u := &unit{name: unitName(fn), body: fd.Body, fn: fn, exported: isExternallyCallable(fn), roots: map[string]bool{}, classes: map[string]bool{}, entryTop: true}
 			if sig.Recv() != nil {
 				u.recv = sig.Recv()
 				if fd.Recv != nil && len(fd.Recv.List) == 1 && len(fd.Recv.List[0].Names) == 1 {
@@ -226,6 +232,8 @@ func analyse(files []*ast.File) *outTable {
 	// greatest fixpoint over the call graph for the entry locksets
 	for iter := 0; iter < 12; iter++ {
 		an.runCalls = map[string]int{}
+		an.syncUses = map[string]int{}
+		an.foreignClose, an.closed, an.sentTo = map[string]string{}, map[string]int{}, map[string]bool{}
 		for i := 0; i < len(an.order); i++ { // an.order grows while closures are discovered
 			u := an.order[i]
 			u.accesses, u.calls = nil, nil
@@ -248,11 +256,7 @@ func analyse(files []*ast.File) *outTable {
 		in := map[*unit][][]lockItem{}
 		for _, u := range an.order {
 			for _, c := range u.calls {
-				if c.async == "" {
-					in[c.callee] = append(in[c.callee], c.held)
-				} else {
-					in[c.callee] = append(in[c.callee], nil)
-				}
+				in[c.callee] = append(in[c.callee], c.held) // for `go f()`: only what is handed over (ownership tokens)
 			}
 		}
 		for _, u := range an.order {
@@ -289,6 +293,25 @@ func analyse(files []*ast.File) *outTable {
 		}
 	}
 	return finish(an)
+}
+
+// methods whose names belong to interfaces the standard library calls through (io, sort, json, fmt, http ...)
+var ifaceMethod = map[string]bool{"Write": true, "Read": true, "Close": true, "String": true, "Error": true, "MarshalJSON": true,
+	"UnmarshalJSON": true, "Len": true, "Less": true, "Swap": true, "ServeHTTP": true, "Seek": true, "ReadFrom": true, "WriteTo": true,
+	"Format": true, "GoString": true, "MarshalText": true, "UnmarshalText": true, "Unwrap": true, "Is": true, "As": true}
+
+// can code outside the package call fn directly (with none of our locks held)?
+func isExternallyCallable(fn *types.Func) bool {
+	if !fn.Exported() {
+		return false
+	}
+	sig, _ := fn.Type().(*types.Signature)
+	if sig != nil && sig.Recv() != nil {
+		if tn := namedOf(sig.Recv().Type()); tn != nil && !tn.Exported() && !ifaceMethod[fn.Name()] {
+			return false // exported method name on an unexported type: reachable only through our own call sites
+		}
+	}
+	return true
 }
 
 // coarseWalk: a function with goto/fallthrough/unresolvable branches is walked with nothing held anywhere
@@ -396,8 +419,15 @@ func finish(an *analysis) *outTable {
 			}
 		}
 	}
-	t := &outTable{EntryLocks: map[string][]string{}, SingleCall: an.runCalls, Entries: []outEntry{}, Coarse: []string{}, Calls: []outCall{}}
-	locs, mus, fns := map[string]bool{}, map[string]bool{}, map[string]bool{}
+	t := &outTable{EntryLocks: map[string][]string{}, SingleCall: an.runCalls, SyncUses: an.syncUses, Entries: []outEntry{}, Coarse: []string{}, Calls: []outCall{}}
+	locs, mus, fns, sigs := map[string]bool{}, map[string]bool{}, map[string]bool{}, map[string]bool{}
+	t.BadSignals = map[string]string{}
+	for k, p := range an.foreignClose {
+		t.BadSignals[k] = "closed at " + p + " by a goroutine that is not known to be the object's only owner"
+	}
+	for k := range an.sentTo {
+		t.BadSignals[k] = "values are sent on it: a receive does not imply that it was closed"
+	}
 	usedCls := map[string]bool{}
 	for _, u := range an.order {
 		if len(u.entry) > 0 {
@@ -420,6 +450,19 @@ func finish(an *analysis) *outTable {
 			e := outEntry{Loc: a.Loc, Kind: "R", Fn: u.name, Classes: cls, Init: a.Init, Pos: posStr(a.Pos), Locks: []outLock{}, Acq: a.Acq}
 			if e.Acq == nil {
 				e.Acq = map[string]string{}
+			}
+			e.Before, e.After = []string{}, []string{}
+			for _, k := range a.Before {
+				if usable(an, k) {
+					e.Before = append(e.Before, k)
+					sigs[k] = true
+				}
+			}
+			for _, k := range a.After {
+				if usable(an, k) {
+					e.After = append(e.After, k)
+					sigs[k] = true
+				}
 			}
 			if a.Write {
 				e.Kind = "W"
@@ -448,7 +491,10 @@ func finish(an *analysis) *outTable {
 		t.Classes = append(t.Classes, outClass{Name: c, Single: an.classes[c]})
 	}
 	sort.Slice(t.Classes, func(i, j int) bool { return t.Classes[i].Name < t.Classes[j].Name })
-	t.Locs, t.Mutexes, t.Funcs = keys(locs), keys(mus), keys(fns)
+	t.Locs, t.Mutexes, t.Funcs, t.Signals = keys(locs), keys(mus), keys(fns), keys(sigs)
+	if t.Signals == nil {
+		t.Signals = []string{}
+	}
 	for tn := range tracked {
 		t.Tracked = append(t.Tracked, tn.Name())
 	}
@@ -460,6 +506,11 @@ func finish(an *analysis) *outTable {
 	sort.Strings(t.Coarse)
 	_ = token.NoPos
 	return t
+}
+
+func usable(an *analysis, sig string) bool {
+	_, bad := an.foreignClose[sig]
+	return !bad && !an.sentTo[sig] && an.closed[sig] > 0
 }
 
 func keys(m map[string]bool) []string {
@@ -504,6 +555,7 @@ func renderCoq(t *outTable, waive string) string {
 		cn = append(cn, s)
 	}
 	list("goroutine classes", cn)
+	list("signals (closes of channel fields)", t.Signals)
 	b.WriteString("\nDefinition gen_entries : list entry := [\n")
 	for i, e := range t.Entries {
 		k := "Rd"
@@ -533,8 +585,15 @@ func renderCoq(t *outTable, waive string) string {
 		if e.Init {
 			in = "true"
 		}
-		fmt.Fprintf(&b, "  mkE %d %s [%s] [%s] %s %d%s  (* %d %s %s %s *)\n", indexOf(t.Locs, e.Loc), k, strings.Join(cls, ";"), strings.Join(lk, ";"), in,
-			indexOf(t.Funcs, e.Fn), sep, i, e.Fn, e.Loc, e.Pos)
+		var bf, af []string
+		for _, x := range e.Before {
+			bf = append(bf, fmt.Sprint(indexOf(t.Signals, x)))
+		}
+		for _, x := range e.After {
+			af = append(af, fmt.Sprint(indexOf(t.Signals, x)))
+		}
+		fmt.Fprintf(&b, "  mkE %d %s [%s] [%s] %s %d [%s] [%s]%s  (* %d %s %s %s *)\n", indexOf(t.Locs, e.Loc), k, strings.Join(cls, ";"), strings.Join(lk, ";"), in,
+			indexOf(t.Funcs, e.Fn), strings.Join(bf, ";"), strings.Join(af, ";"), sep, i, e.Fn, e.Loc, e.Pos)
 	}
 	b.WriteString("].\n\nDefinition gen_singles : list N := [")
 	first := true
